@@ -206,6 +206,120 @@ def child_state(v: Any) -> Dict[str, Any]:
 
 
 # ---------------------------------------------------------------------------
+# deeply nested values: the codecs have different nesting limits for encoding and for decoding
+# ---------------------------------------------------------------------------
+DEEP_KINDS = ["arrays", "objects", "alternating"]
+DEEP_LEAVES = ["caf\u00e9 \U0001F600", I64 - 1, -0.0, {}, []]
+# around orjson's encoder limit (254), its decoder limit (1024), and below what the standard library follows (~1490)
+DEEP_DEPTHS = [200, 253, 254, 255, 256, 300, 1000, 1023, 1024, 1025, 1026, 1100, 1400]
+
+
+def deep_cases() -> List[List[Any]]:
+    return [[k, d, li] for k in range(len(DEEP_KINDS)) for li in range(len(DEEP_LEAVES)) for d in DEEP_DEPTHS]
+
+
+def build_deep(desc: List[Any]) -> Any:
+    kind, depth, li = DEEP_KINDS[desc[0]], desc[1], desc[2]
+    v = DEEP_LEAVES[li]
+    for level in range(depth):
+        as_object = kind == "objects" or (kind == "alternating" and level % 2 == 1)
+        v = {"k\u00e9" if kind == "alternating" else "k": v} if as_object else [v]
+    return v
+
+
+def deep_equal(a: Any, b: Any) -> bool:
+    """strict_eq for very deep single-child chains, without recursion along the chain."""
+    while True:
+        if type(a) is not type(b):
+            return False
+        if isinstance(a, list) and len(a) == 1 and len(b) == 1:
+            a, b = a[0], b[0]
+        elif isinstance(a, dict) and len(a) == 1 and len(b) == 1 and list(a) == list(b):
+            k = next(iter(a))
+            a, b = a[k], b[k]
+        else:
+            return strict_eq(a, b)
+
+
+def child_deep_enc(desc: List[Any]) -> Dict[str, Any]:
+    from chuk_mcp.protocol import fast_json
+
+    v = build_deep(desc)
+    out = {}
+    for api, f in (("dumps", lambda: fast_json.dumps(v)), ("dumps-compact", lambda: fast_json.dumps(v, separators=(",", ":")))):
+        try:
+            t = f()
+            out[api] = {"text": t} if isinstance(t, str) else {"exc": "not-a-str"}
+        except BaseException as e:  # noqa: BLE001
+            out[api] = {"exc": type(e).__name__}
+    return out
+
+
+def child_deep_dec(desc: List[Any], text: str) -> Dict[str, Any]:
+    from chuk_mcp.protocol import fast_json
+
+    v = build_deep(desc)
+    b = text.encode("utf-8")
+    out = {}
+    for api, f in (("loads-str", lambda: fast_json.loads(text)), ("loads-bytes", lambda: fast_json.loads(b)),
+                   ("load-text", lambda: fast_json.load(io.StringIO(text))), ("load-bytes", lambda: fast_json.load(io.BytesIO(b)))):
+        try:
+            out[api] = "equal" if deep_equal(v, f()) else "differs"
+        except BaseException as e:  # noqa: BLE001
+            out[api] = "raises:" + type(e).__name__
+    return out
+
+
+def describe_deep(desc: List[Any]) -> str:
+    return f"{desc[1]} nested {DEEP_KINDS[desc[0]]} around {DEEP_LEAVES[desc[2]]!r}"
+
+
+def judge_deep(pools: Dict[str, workers.Pool], tally: Tally, audit_store: Dict[str, list]):
+    from .. import orderdep
+
+    names = list(pools)
+    descs = deep_cases()
+    enc_cases = [["deep-enc", d] for d in descs]
+    ea = orderdep.per_config([{"name": n} for n in names], lambda c: pools[c["name"]].map(enc_cases))
+    viol: List[Tuple[int, dict, str]] = []
+    dec_cases: List[Any] = []
+    origin: List[Tuple[int, str, str]] = []
+    for n in names:
+        for i in workers.audit_indices(enc_cases, 5):
+            audit_store.setdefault(n, []).append((enc_cases[i], ea[n][i]))
+        for i, a in enumerate(ea[n]):
+            if "harness_exc" in a:
+                raise core.HarnessError(f"worker {n}: {a['harness_exc']}")
+            for api, r in a.items():
+                tally.add("deep_encodings")
+                if "exc" in r:
+                    viol.append((i, {"class": "dumps-raised", "enc": n, "api": api, "exception": r["exc"], "value": "deep-nesting"},
+                                 f"{api} under {n} raised {r['exc']} for {describe_deep(descs[i])}"))
+                    continue
+                if "\n" in r["text"] or "\r" in r["text"]:
+                    viol.append((i, {"class": "raw-line-break", "enc": n, "api": api}, f"{api} under {n} of {describe_deep(descs[i])}"))
+                dec_cases.append(["deep-dec", descs[i], r["text"]])
+                origin.append((i, n, api))
+    da = orderdep.per_config([{"name": n} for n in names], lambda c: pools[c["name"]].map(dec_cases))
+    for n in names:
+        for j in workers.audit_indices(dec_cases, 11):
+            audit_store.setdefault(n, []).append((dec_cases[j], da[n][j]))
+        for j, a in enumerate(da[n]):
+            if "harness_exc" in a:
+                raise core.HarnessError(f"worker {n}: {a['harness_exc']}")
+            i, prod, api = origin[j]
+            for dapi, verdict in a.items():
+                tally.add("deep_roundtrips_judged")
+                if verdict != "equal":
+                    band = "beyond-1024" if descs[i][1] > 1024 else "255..1024" if descs[i][1] > 254 else "up-to-254"
+                    viol.append((i, {"class": "loads-raised" if verdict.startswith("raises") else "roundtrip-mismatch", "enc": prod,
+                                     "dec": n, "api": f"{api}/{dapi}", "value": "deep-nesting", "depth": band,
+                                     "exception": verdict.partition(":")[2] or None},
+                                 f"{dapi}[{n}]({api}[{prod}](v)) for v = {describe_deep(descs[i])}: {verdict}"))
+    return descs, viol
+
+
+# ---------------------------------------------------------------------------
 # the file API: dump(obj, fp) / load(fp) over binary files, text files of several encodings, StringIO, BytesIO
 # ---------------------------------------------------------------------------
 FILE_KINDS = ["binary-file", "BytesIO", "StringIO", "text:utf-8", "text:ascii", "text:latin-1", "text:cp1252", "text:utf-16"]
@@ -447,6 +561,10 @@ def child_handle(case: Any) -> Any:
         return encseq.child_seq(case)
     if op == "file":
         return child_file(dec(case[1]))
+    if op == "deep-enc":
+        return child_deep_enc(case[1])
+    if op == "deep-dec":
+        return child_deep_dec(case[1], case[2])
     if op == "enc":
         v = dec(case[1])
         level = case[2] if len(case) > 2 else "full"
@@ -984,6 +1102,15 @@ def run(tier: str, only=None) -> core.Result:
                             res_s.add_violation(sig, msg, {"ref": "vf.checks.c17:replay_case", "args": {"file_value": enc(file_vals[i])}})
                         else:
                             res_s.violation_total += 1
+                    deep_descs, deep_viol = judge_deep(fpools, tally_s, file_audit)
+                    for (i, sig, msg) in deep_viol:
+                        k = json.dumps(sig, sort_keys=True)
+                        viol_sigs_s[k] = viol_sigs_s.get(k, 0) + 1
+                        if viol_sigs_s[k] <= 8:
+                            res_s.add_violation(sig, msg, {"ref": "vf.checks.c17:replay_case", "args": {"deep": deep_descs[i]}})
+                        else:
+                            res_s.violation_total += 1
+                    samples_s.append({"group": "deep-nesting", "value": describe_deep(deep_descs[len(deep_descs) // 2])})
                 finally:
                     for p in fpools.values():
                         p.close()
@@ -1145,9 +1272,11 @@ def run(tier: str, only=None) -> core.Result:
         res.harness_errors.append("vacuous: the two configurations never produced different encodings - is orjson really masked?")
     cov = res.coverage
     cov["evaluations"] = tally.c.get("roundtrips_judged", 0) + tally.c.get("message_roundtrips_judged", 0) + \
-        tally.c.get("decode_mutate_decode_sequences", 0) + tally.c.get("file_roundtrips_judged", 0) + tally.c.get("file_loads", 0) + \
+        tally.c.get("deep_roundtrips_judged", 0) + tally.c.get("decode_mutate_decode_sequences", 0) + tally.c.get("file_roundtrips_judged", 0) + tally.c.get("file_loads", 0) + \
         sum(v.get("calls_compared_with_fresh_process", 0) for v in seq_info.values() if isinstance(v, dict))
     cov["encode_sequences"] = seq_info
+    cov["deep_nesting"] = {"values": len(deep_cases()), "depths": DEEP_DEPTHS, "kinds": DEEP_KINDS,
+                           "encodings": tally.c.get("deep_encodings", 0), "roundtrips_judged": tally.c.get("deep_roundtrips_judged", 0)}
     cov["file_api"] = {"values": len(file_vals), "file_kinds": FILE_KINDS + SINK_KINDS, "dumps": tally.c.get("file_dumps", 0),
                        "loads": tally.c.get("file_loads", 0), "ndjson_loops": tally.c.get("ndjson_files", 0), "ndjson_file_kinds": NDJSON_KINDS, "roundtrips_judged": tally.c.get("file_roundtrips_judged", 0)}
     cov["message_path"] = {"messages": len(msgs), "configurations": msg_hello,
@@ -1205,6 +1334,7 @@ def run(tier: str, only=None) -> core.Result:
         "message path: the value a message stands for is its own model_dump with the same arguments, taken in the producing worker; a difference of that value between the Pydantic and the fallback backend is C09's subject and only counted here",
         "text files are io.TextIOWrapper objects over a memory buffer with the stated encoding and binary files io.BufferedWriter/BufferedReader over one - the classes open() returns - so that the check writes nothing to disk",
         "encode statefulness: 'a fresh process' is a fork of a worker that has imported the library and has never called an encoder; outputs are compared by length and a 80-bit digest",
+        "deep nesting: single-child chains of 200..1400 arrays / objects (around orjson's encoder limit 254 and decoder limit 1024) are built inside the workers from a description and compared there without recursion; nesting beyond about 1490 levels, which neither codec follows under the interpreter's default limits, is outside the alphabet",
         "statefulness part: the in-place mutations are an append and an item replacement on every list, a new key and a key deletion on every dict, at nesting depth 0-2 of the decoded value; the value must decode unchanged afterwards through every decoding entry point",
         "the orjson-masked worker models 'orjson not installed' by an import blocker placed on sys.meta_path before chuk_mcp is imported",
     ]
@@ -1212,6 +1342,29 @@ def run(tier: str, only=None) -> core.Result:
 
 
 def replay_case(args: Dict[str, Any]) -> Dict[str, Any]:
+    if "deep" in args:
+        d = args["deep"]
+        out = {}
+        viol = []
+        pools = start_pools(1)
+        try:
+            encs = {n: p.map([["deep-enc", d]])[0] for n, p in pools.items()}
+            for prod, a in encs.items():
+                for api, r in a.items():
+                    if "text" not in r:
+                        viol.append({"sig": {"class": "dumps-raised", "enc": prod, "api": api}, "msg": str(r)})
+                        continue
+                    for n, p in pools.items():
+                        v_ = p.map([["deep-dec", d, r["text"]]])[0]
+                        out[f"{api}[{prod}] -> {n}"] = v_
+                        for dapi, verdict in v_.items():
+                            if verdict != "equal":
+                                viol.append({"sig": {"class": "loads-raised" if verdict.startswith("raises") else "roundtrip-mismatch",
+                                                     "enc": prod, "dec": n, "api": f"{api}/{dapi}"}, "msg": verdict})
+        finally:
+            for p in pools.values():
+                p.close()
+        return {"value": describe_deep(d), "verdicts": out, "violations": viol}
     if "file_value" in args:
         v = dec(args["file_value"])
         tally = Tally()
